@@ -148,5 +148,10 @@ func replay(args []string) int {
 	}
 	fmt.Printf("replaying %s batch %d/%d ordinal %d (expected signature %s)\n", r.Property, r.Batch, r.NBatches, r.Ordinal, r.Sig)
 	p.Run(b)
-	return 0
+	if b.ViolationCount() == 0 {
+		fmt.Println("REPLAY RESULT: the property held on this case (no violation on the current tree)")
+		return 0
+	}
+	fmt.Println("REPLAY RESULT: violated")
+	return 1
 }
